@@ -9,7 +9,9 @@
   * attribution (DESIGN §3.4):
       C28-F1  some name is defined twice in the statement AND the engine's rows are an acceptable answer of
               `Engine.Cte.enginePlan today pick` (global never-restored name map + cache keyed on the name) for one of the
-              candidate choices `pick`;
+              candidate choices `pick`, or of the never-restored name map alone (the planner does not consult the cache everywhere);
+              where the engine's rows are not mirrored exactly (or it fails): signature = some name is defined twice,
+              neutraliser = the CTE-free, lexically resolved rendering of the statement (`impl.neutral_inline`) passes the oracle;
       C28-F2  signature `f:dup_derived_names` (two derived relations with equal column names in one FROM, e.g. the same CTE
               twice) AND the neutralised rendering (every CTE reference wrapped in a column-renaming derived table,
               `impl.neutral_rename`) passes the oracle on the real engine;
@@ -145,18 +147,6 @@ def inlineSame (c : Case) (out : Table) : Bool :=
     | _ => false
   | .error _ => false
 
-def attrC28 : AttrFn := fun c o _ =>
-  match o with
-  | .ok out =>
-    let f1 : Bool := match info c with
-      | .ok i => i.shadowed && [0, 1, 2].any (fun k => explains c i.nq out today (fun _ => k))
-      | .error _ => false
-    if f1 then some "C28-F1"
-    else if c.tags.contains "f:dup_derived_names" && renamePasses c then some "C28-F2"
-    else if inlineSame c out then some "C28-F3"
-    else none
-  | _ => none
-
 /-- the CTE-free rendering of the statement passes the oracle on the real engine -/
 def inlinePasses (c : Case) : Bool :=
   match c.impl.getObjVal? "neutral_inline" with
@@ -167,6 +157,23 @@ def inlinePasses (c : Case) : Bool :=
     | .ok (label, none) => label == "right"
     | _ => false
   | .error _ => false
+
+def attrC28 : AttrFn := fun c o _ =>
+  match o with
+  | .ok out =>
+    let f1 : Bool := match info c with
+      | .ok i => i.shadowed && ([0, 1, 2, 3].any (fun k => explains c i.nq out today (fun _ => k)) ||
+          -- the planner does not always consult the cache (a reference inside a subquery expression that the optimizer rewrote): binder alone
+          explains c i.nq out { scopeNeverRestored := true } (fun _ => 0) ||
+          -- not mirrored exactly (name-based column lookup in a materialisation of the other definition mixes with C28-F2):
+          -- signature (a name defined twice) + neutraliser (the CTE-free, lexically resolved rendering passes)
+          inlinePasses c)
+      | .error _ => false
+    if f1 then some "C28-F1"
+    else if c.tags.contains "f:dup_derived_names" && renamePasses c then some "C28-F2"
+    else if inlineSame c out then some "C28-F3"
+    else none
+  | _ => none
 
 def handler : Driver.Handler := fun cj i => do
   let v ← handlerWith attrC28 cj i
